@@ -78,6 +78,86 @@ def s_converge(F, res):
         res.add([finding("S-CONVERGE", key2, "crates/tx3-tir/src/compile.rs", "CompiledTx equality is hand-written or missing: convergence may ignore the fee or the payload")])
 
 
+ARITH_OPS = ("Add", "Sub", "Mul", "Div", "Rem", "AddWithOverflow", "SubWithOverflow", "MulWithOverflow", "Shl", "Shr", "BitAnd", "BitOr", "BitXor")
+
+
+def s_feevalue(F, res):
+    """S-FEEVALUE: the fee the resolver hands to `apply_fees` is what the template's `fees` becomes - unchanged.  In
+    `<Param as Apply>::apply_fees` (helpers inlined) the value put into `Param::Set(..)` on the ExpectFees arm is reached from
+    the `fees` parameter through casts, constructors and conversions only: no arithmetic and no clamping (`max`, `min`,
+    `clamp`, `saturating_*`, `wrapping_*`, `checked_*`) on the way.  Otherwise the body's fee and the fee the compiler
+    reports for it differ for some fee value although the loop converges."""
+    from ..common import with_helpers
+    path = "<tx3_tir::model::v1beta0::Param as tx3_tir::reduce::Apply>::apply_fees"
+    if path not in F.fns:
+        raise BrokenCheck("Param::apply_fees not found")
+    f = with_helpers(F, path)
+    du = mir.DefUse(f)
+    key = path + "|ExpectFees becomes the fee argument itself"
+    sets = [(bi, s) for bi, si, s in mir.stmts(f) if s["rv"]["k"] == "agg" and s["rv"].get("adt", "").endswith("::Param") and s["rv"].get("variant") == "Set"]
+    if not sets:
+        raise BrokenCheck("Param::apply_fees builds no Param::Set")
+    seen, st = set(), []
+    for bi, s in sets:
+        for o in s["rv"]["ops"]:
+            pl = mir.op_place(o)
+            if pl is not None:
+                st.append(pl["l"])
+    reached = False
+    trouble = []
+    # stores through a projection (`(*box) = [..]`, `x.field = ..`) feed the base local as well
+    # (pointers obtained from a box by casts - the `vec![..]` expansion - stand for the box)
+    parent = {}
+
+    def root(x):
+        while parent.get(x, x) != x:
+            x = parent[x]
+        return x
+    for bi, si, s2 in mir.stmts(f):
+        rv2 = s2["rv"]
+        if not s2["lhs"]["p"] and rv2["k"] in ("use", "cast"):
+            pl2 = mir.op_place(rv2["op"])
+            if pl2 is not None and "*" in f["locals"][s2["lhs"]["l"]] + f["locals"][pl2["l"]] or (pl2 is not None and "Box<" in f["locals"][pl2["l"]] and rv2["k"] == "cast"):
+                parent[root(s2["lhs"]["l"])] = root(pl2["l"])
+    stores = {}
+    for bi, si, s2 in mir.stmts(f):
+        if s2["lhs"]["p"]:
+            stores.setdefault(root(s2["lhs"]["l"]), []).append(("stmt", bi, si, s2))
+    while st:
+        l = st.pop()
+        if l in seen:
+            continue
+        seen.add(l)
+        if l == 2:
+            reached = True
+            continue
+        for d in list(du.defs.get(l, [])) + stores.get(root(l), []):
+            if d[0] == "call":
+                t = d[3]
+                c = t.get("callee") or ""
+                last = c.split("::")[-1]
+                if last in ("max", "min", "clamp") or last.startswith(("saturating_", "wrapping_", "checked_", "overflowing_")):
+                    trouble.append("`%s`" % last)
+                ops = t["args"]
+            else:
+                rv = d[3]["rv"]
+                if rv["k"] == "binop" and rv["op"] in ARITH_OPS:
+                    trouble.append("`%s`" % rv["op"].replace("WithOverflow", ""))
+                ops = [rv.get(k) for k in ("op", "a", "b") if isinstance(rv.get(k), dict)] + list(rv.get("ops") or [])
+                if rv.get("pl") is not None:
+                    ops.append({"cp": rv["pl"]})
+            for o in ops:
+                pl = mir.op_place(o)
+                if pl is not None:
+                    st.append(pl["l"])
+    if not reached:
+        res.add([finding("S-FEEVALUE", key, where(f), "the value substituted for the template's fees does not derive from the fee argument")])
+    elif trouble:
+        res.add([finding("S-FEEVALUE", key, where(f), "on its way into the template the fee argument passes %s: for some fee value the body carries another fee than the one the compiler reports" % ", ".join(sorted(set(trouble))))])
+    else:
+        res.add([ok("S-FEEVALUE", key, where(f), "Param::Set(.. fees as i128 ..): casts and constructors only")])
+
+
 def s_feeflow(F, res):
     pfn = e8_state.resolver_roles(F)[1]
     g = e8_state.pass_body(F)
@@ -320,6 +400,8 @@ def run(ctx):
     res.rule("S-KIND", "fees are substituted only by Param::apply_fees under ExpectFees")
     s_converge(F, res)
     s_feeflow(F, res)
+    res.rule("S-FEEVALUE", "the fee argument reaches the template's `fees` unchanged (casts and constructors only)")
+    s_feevalue(F, res)
     f_fielduse(F, res)
     formula(F, res)
     c06.s_kind(F, res)
